@@ -1,6 +1,6 @@
 (** ParamsLemmas: the algebra of the insertion-ordered dictionaries, of
     [utils.flatten] and of [utils.unflatten_and_split] used by the proofs of C10. *)
-From LymphModel Require Import Base States Linalg Graph Transition Observation Dist Unilateral Models Params.
+From LymphModel Require Import Base States Linalg Graph Transition Observation Dist Unilateral Models Params ParamsStatements.
 Local Open Scope nat_scope.
 Local Open Scope string_scope.
 Local Open Scope list_scope.
@@ -172,8 +172,6 @@ Section Dict.
 End Dict.
 
 (** * flatten *)
-Definition prefix (p : path) (kv : path * Qc) : path * Qc := (p ++ fst kv, snd kv).
-Definition pre (p : path) (l : list (path * Qc)) : list (path * Qc) := map (prefix p) l.
 
 Lemma pre_nil_path l : pre [] l = l.
 Proof. unfold pre. induction l as [|[k v] l IH]; cbn [map]; [reflexivity | rewrite IH; reflexivity]. Qed.
@@ -290,9 +288,6 @@ Lemma sub_kwargs_set_other k k' v d : k <> k' -> sub_kwargs k (dict_set k' v d) 
 Proof. intros H. unfold sub_kwargs. rewrite dict_get_set_other by exact H. reflexivity. Qed.
 
 (** * unflatten_and_split: what an object finally looks up *)
-(** the binding a Python dict built from the items would hold (the last one wins;
-    for a list without duplicate keys this is [kw_get]) *)
-Definition kw_last {A} (k : path) (kw : list (path * A)) : option A := kw_get k (rev kw).
 Lemma kw_last_NoDup {A} k (kw : list (path * A)) : NoDup (map fst kw) -> kw_last k kw = kw_get k kw.
 Proof. apply kw_get_rev_NoDup. Qed.
 Lemma kw_last_nil {A} k : @kw_last A k [] = None.
@@ -300,8 +295,6 @@ Proof. reflexivity. Qed.
 Lemma kw_last_snoc {A} k k' (v : A) kw :
   kw_last k (kw ++ [(k', v)]) = if path_eqb k k' then Some v else kw_last k kw.
 Proof. unfold kw_last. rewrite rev_app_distr. reflexivity. Qed.
-
-Definition head_of (k : path) : string := fst (partition_key k).
 
 Definition unflat_step (expected : list string) (acc : list (string * kwargs) * kwargs) (kv : path * val) :=
   let '(split, glob) := acc in
@@ -399,21 +392,6 @@ Proof.
   rewrite Hs. apply mem_false in Hin. rewrite Hin. apply Hg.
 Qed.
 
-(** * The value every parameter receives: keyword, else positional, else current *)
-Definition pick (k p : option val) (old : Qc) : val :=
-  match k with Some v => v | None => val_or p old end.
-(** one new value per parameter of [ps], consuming [a] from the left *)
-Fixpoint plan (lk : path -> option val) (ps : list (path * Qc)) (a : args) : list val :=
-  match ps with
-  | [] => []
-  | (k, old) :: r => pick (lk k) (hd_error a) old :: plan lk r (tl a)
-  end.
-Fixpoint all_unit (l : list val) : option (list Qc) :=
-  match l with
-  | [] => Some []
-  | v :: r => match check_unit v, all_unit r with Some q, Some qs => Some (q :: qs) | _, _ => None end
-  end.
-
 Lemma popfirst_eq {A} (l : list A) : popfirst l = (hd_error l, tl l).
 Proof. destruct l; reflexivity. Qed.
 Lemma tl_skipn {A} (l : list A) n : tl (skipn n l) = skipn (S n) l.
@@ -475,8 +453,6 @@ Definition edge_put (tri : bool) (e : edge) (qs : list Qc) : edge :=
   | [s; m] => with_micro (with_spread e s) m
   | _ => e
   end.
-Definition edge_params (tri : bool) (e : edge) : list (path * Qc) := items (edge_get_params tri e).
-
 Lemma edge_params_cases tri e :
   edge_params tri e = (if is_growth e then [(["growth"], e_spread e)]
                        else if has_micro tri e then [(["spread"], e_spread e); (["micro"], e_micro e)]
@@ -524,9 +500,6 @@ Proof.
 Qed.
 
 (** * Lists of edges *)
-(** the parameters of the selected edges, in order, keyed [edge name; parameter] *)
-Definition sel_params (tri : bool) (sel : edge -> bool) (es : list edge) : list (path * Qc) :=
-  flat_map (fun e => if sel e then pre [e_name e] (edge_params tri e) else []) es.
 Fixpoint edges_put (tri : bool) (sel : edge -> bool) (es : list edge) (qs : list Qc) : list edge :=
   match es with
   | [] => []
@@ -703,37 +676,6 @@ Proof.
 Qed.
 
 (** * Distributions *)
-Definition dist_local (d : dist) : list (path * Qc) :=
-  match d with Frozen _ => [] | Param _ kws => map (fun kv => ([fst kv], snd kv)) kws end.
-Definition dists_items (ds : list (string * dist)) : list (path * Qc) :=
-  flat_map (fun td => pre [fst td] (dist_local (snd td))) ds.
-Fixpoint unwrap (l : list val) : option (list Qc) :=
-  match l with
-  | [] => Some []
-  | V q :: r => option_map (cons q) (unwrap r)
-  | Bad :: _ => None
-  end.
-Definition dist_put (maxt : nat) (d : dist) (new : list val) : option dist :=
-  match d with
-  | Frozen _ => Some d
-  | Param f kws =>
-      match unwrap new with
-      | None => None
-      | Some qs => let kws' := combine (map fst kws) qs in
-                   match fam_weights f maxt kws' with None => None | Some _ => Some (Param f kws') end
-      end
-  end.
-Fixpoint dists_put (maxt : nat) (ds : list (string * dist)) (new : list val) : option (list (string * dist)) :=
-  match ds with
-  | [] => Some []
-  | (t, d) :: r =>
-      let k := length (dist_local d) in
-      match dist_put maxt d (firstn k new), dists_put maxt r (skipn k new) with
-      | Some d', Some r' => Some ((t, d') :: r')
-      | _, _ => None
-      end
-  end.
-
 Lemma dist_assign_spec kws : forall a kw,
   dist_assign kws a kw
   = (combine (map fst kws) (plan (fun t => kw_get t kw) (map (fun kv => ([fst kv], snd kv)) kws) a),
@@ -850,3 +792,188 @@ Proof.
       rewrite combine_app by (rewrite !map_length; lia). rewrite combine_pre. reflexivity.
     + cbn [map fst]. rewrite Hn. reflexivity.
 Qed.
+
+(** * NoDup toolbox *)
+Lemma NoDup_app_intro {A} (l1 l2 : list A) :
+  NoDup l1 -> NoDup l2 -> (forall x, In x l1 -> ~ In x l2) -> NoDup (l1 ++ l2).
+Proof.
+  induction l1 as [|a l1 IH]; intros H1 H2 Hd; [exact H2|]. cbn [app]. inversion H1; subst. constructor.
+  - rewrite in_app_iff. intros [H|H]; [contradiction | apply (Hd a); [left; reflexivity | exact H]].
+  - apply IH; [assumption | assumption | intros x Hx; apply Hd; right; exact Hx].
+Qed.
+Lemma NoDup_app_l {A} (l1 l2 : list A) : NoDup (l1 ++ l2) -> NoDup l1.
+Proof. induction l1 as [|a l1 IH]; intros H; [constructor|]. inversion H; subst. constructor; [rewrite in_app_iff in *; tauto | apply IH; assumption]. Qed.
+Lemma NoDup_app_r {A} (l1 l2 : list A) : NoDup (l1 ++ l2) -> NoDup l2.
+Proof. induction l1 as [|a l1 IH]; intros H; [exact H|]. inversion H; subst. apply IH. assumption. Qed.
+Lemma NoDup_app_disj {A} (l1 l2 : list A) x : NoDup (l1 ++ l2) -> In x l1 -> ~ In x l2.
+Proof.
+  induction l1 as [|a l1 IH]; intros H Hx; [destruct Hx|]. cbn [app] in H. inversion H; subst. destruct Hx as [Hx|Hx].
+  - subst. rewrite in_app_iff in *. tauto.
+  - apply IH; assumption.
+Qed.
+Lemma NoDup_map_inj {A B} (f : A -> B) l : (forall x y, f x = f y -> x = y) -> NoDup l -> NoDup (map f l).
+Proof.
+  intros Hinj. induction l as [|a l IH]; intros H; [constructor|]. inversion H; subst. cbn [map]. constructor.
+  - rewrite in_map_iff. intros (y & Hy & Hin). apply Hinj in Hy. subst. contradiction.
+  - apply IH. assumption.
+Qed.
+Lemma NoDup_map_via {A B C} (f : A -> B) (g : A -> C) l :
+  (forall x y, f x = f y -> g x = g y) -> NoDup (map g l) -> NoDup (map f l).
+Proof.
+  intros Hfg. induction l as [|a l IH]; intros H; [constructor|]. cbn [map] in *. inversion H; subst. constructor.
+  - rewrite in_map_iff. intros (y & Hy & Hin). apply Hfg in Hy. match goal with Hn : ~ In _ _ |- _ => apply Hn end.
+    rewrite <- Hy. apply in_map, Hin.
+  - apply IH. assumption.
+Qed.
+Lemma NoDup_map_filter_split {A B} (f : A -> B) (p : A -> bool) l :
+  NoDup (map f l) -> NoDup (map f (filter p l) ++ map f (filter (fun x => negb (p x)) l)).
+Proof.
+  induction l as [|a l IH]; intros H; [constructor|]. cbn [map filter] in *. inversion H as [|? ? Hni Hnd]; subst.
+  specialize (IH Hnd).
+  assert (Hsub : forall q, In (f a) (map f (filter q l)) -> In (f a) (map f l)).
+  { intros q Hin. apply in_map_iff in Hin. destruct Hin as (y & Hy & Hin). apply filter_In in Hin. rewrite <- Hy. apply in_map, Hin. }
+  destruct (p a); cbn [negb map app].
+  - constructor; [|exact IH]. rewrite in_app_iff. intros [Hin|Hin]; apply Hni; eapply Hsub; exact Hin.
+  - apply NoDup_app_intro; [apply (NoDup_app_l _ _ IH) | |].
+    + constructor; [intros Hin; apply Hni; eapply Hsub; exact Hin | apply (NoDup_app_r _ _ IH)].
+    + intros x Hx [Hx'|Hx']; [subst; apply Hni; eapply Hsub; exact Hx | exact (NoDup_app_disj _ _ _ IH Hx Hx')].
+Qed.
+
+(** keys grouped by their first component *)
+Lemma NoDup_chunks (chunks : list (string * list path)) :
+  NoDup (map fst chunks) ->
+  (forall c, In c chunks -> NoDup (snd c) /\ forall k, In k (snd c) -> head_of k = fst c) ->
+  NoDup (flat_map snd chunks).
+Proof.
+  induction chunks as [|[h ks] r IH]; intros Hnd Hc; [constructor|]. cbn [flat_map map fst snd] in *.
+  inversion Hnd as [|? ? Hni Hnd']; subst. apply NoDup_app_intro.
+  - apply (Hc (h, ks)). left. reflexivity.
+  - apply IH; [exact Hnd' | intros c Hin; apply Hc; right; exact Hin].
+  - intros k Hk Hin. apply in_flat_map in Hin. destruct Hin as (c & Hcin & Hkc).
+    apply Hni. apply in_map_iff. exists c. split; [|exact Hcin].
+    destruct (Hc c (or_intror Hcin)) as [_ Hh]. destruct (Hc (h, ks) (or_introl eq_refl)) as [_ Hh'].
+    rewrite <- (Hh k Hkc). apply (Hh' k Hk).
+Qed.
+
+Lemma pre_keys_NoDup p (l : list (path * Qc)) : NoDup (map fst l) -> NoDup (map fst (pre p l)).
+Proof. intros H. rewrite pre_keys. apply NoDup_map_inj; [intros x y; apply app_inv_head | exact H]. Qed.
+
+(** * Reading the parameters of a unilateral model *)
+Lemma edge_get_params_leaves tri e : edge_get_params tri e = leaves (edge_params tri e).
+Proof.
+  rewrite edge_params_cases. unfold edge_get_params. destruct (is_growth e); [reflexivity|]. destruct (has_micro tri e); reflexivity.
+Qed.
+Lemma edge_params_keys_NoDup tri e : NoDup (map fst (edge_params tri e)).
+Proof.
+  rewrite edge_params_cases. destruct (is_growth e); [repeat constructor; intros []|].
+  destruct (has_micro tri e); repeat constructor; cbn; intuition discriminate.
+Qed.
+Lemma sel_params_filter tri sel es :
+  sel_params tri sel es = flat_map (fun e => pre [e_name e] (edge_params tri e)) (filter sel es).
+Proof.
+  induction es as [|e r IH]; [reflexivity|]. rewrite sel_params_cons. cbn [filter].
+  destruct (sel e); cbn [flat_map app]; rewrite IH; reflexivity.
+Qed.
+Lemma sel_params_all tri es : sel_params tri sel_all es = flat_map (fun e => pre [e_name e] (edge_params tri e)) es.
+Proof. induction es as [|e r IH]; [reflexivity|]. rewrite sel_params_cons. cbn [sel_all flat_map]. rewrite IH. reflexivity. Qed.
+
+(** the nested dict of a list of edges *)
+Definition edges_nested (tri : bool) (es : list edge) : pdict :=
+  map (fun e => ([e_name e], Node (edge_get_params tri e))) es.
+Lemma fold_kw_set_edges tri es : forall acc,
+  NoDup (map e_name es) -> (forall e, In e es -> kw_get [e_name e] acc = None) ->
+  fold_left (fun d e => kw_set [e_name e] (Node (edge_get_params tri e)) d) es acc = acc ++ edges_nested tri es.
+Proof.
+  induction es as [|e r IH]; intros acc Hnd Hacc; cbn [fold_left edges_nested map]; [rewrite app_nil_r; reflexivity|].
+  cbn [map] in Hnd. inversion Hnd as [|? ? Hni Hnd']; subst.
+  rewrite kw_set_fresh by (apply Hacc; left; reflexivity).
+  rewrite IH; [rewrite <- app_assoc; reflexivity | exact Hnd' |].
+  intros e' Hin. rewrite kw_get_app, (Hacc e' (or_intror Hin)). cbn [kw_get].
+  rewrite path_eqb_neq; [reflexivity|]. intros [= Heq]. apply Hni. rewrite <- Heq. apply in_map, Hin.
+Qed.
+Lemma flat_items_edges_nested tri es :
+  flat_items_dict (edges_nested tri es) = flat_map (fun e => pre [e_name e] (edge_params tri e)) es.
+Proof.
+  induction es as [|e r IH]; [reflexivity|]. cbn [edges_nested map flat_map]. rewrite flat_items_dict_cons.
+  fold (edges_nested tri r). rewrite IH, flat_items_key_node, edge_get_params_leaves, flat_items_dict_leaves. reflexivity.
+Qed.
+Lemma edges_flat_keys_NoDup tri es : NoDup (map e_name es) ->
+  NoDup (map fst (flat_map (fun e => pre [e_name e] (edge_params tri e)) es)).
+Proof.
+  intros H.
+  replace (map fst (flat_map (fun e => pre [e_name e] (edge_params tri e)) es))
+    with (flat_map snd (map (fun e => (e_name e, map fst (pre [e_name e] (edge_params tri e)))) es)).
+  - apply NoDup_chunks.
+    + rewrite map_map. exact H.
+    + intros c Hin. apply in_map_iff in Hin. destruct Hin as (e & <- & _). cbn [fst snd]. split.
+      * apply pre_keys_NoDup, edge_params_keys_NoDup.
+      * intros k Hk. rewrite pre_keys in Hk. apply in_map_iff in Hk. destruct Hk as (t & <- & _). reflexivity.
+  - induction es as [|e r IH]; [reflexivity|]. cbn [map flat_map snd]. rewrite map_app. f_equal.
+    apply IH. cbn [map] in H. inversion H; assumption.
+Qed.
+
+Lemma edges_get_params_nested tri es : NoDup (map e_name es) -> edges_get_params tri es false = edges_nested tri es.
+Proof.
+  intros H. unfold edges_get_params, maybe_flatten. rewrite fold_kw_set_edges; [reflexivity | exact H | reflexivity].
+Qed.
+Lemma edges_get_params_flat tri es : NoDup (map e_name es) ->
+  edges_get_params tri es true = leaves (flat_map (fun e => pre [e_name e] (edge_params tri e)) es).
+Proof.
+  intros H. unfold edges_get_params, maybe_flatten. rewrite fold_kw_set_edges; [| exact H | reflexivity]. cbn [app].
+  rewrite flatten_spec; rewrite flat_items_edges_nested; [reflexivity | apply edges_flat_keys_NoDup, H].
+Qed.
+
+(** distributions *)
+Definition dists_nested (ds : list (string * dist)) : pdict :=
+  flat_map (fun td => match snd td with Frozen _ => [] | Param _ kws => [([fst td], Node (dist_kw_dict kws))] end) ds.
+Lemma dist_kw_dict_leaves kws : dist_kw_dict kws = leaves (map (fun kv => ([fst kv], snd kv)) kws).
+Proof. unfold dist_kw_dict, leaves. rewrite map_map. reflexivity. Qed.
+Lemma fold_kw_set_dists ds : forall acc,
+  NoDup (map fst ds) -> (forall td, In td ds -> kw_get [fst td] acc = None) ->
+  fold_left (fun acc td => match snd td with
+                           | Frozen _ => acc
+                           | Param _ kws => kw_set [fst td] (Node (dist_kw_dict kws)) acc
+                           end) ds acc = acc ++ dists_nested ds.
+Proof.
+  induction ds as [|[t d] r IH]; intros acc Hnd Hacc; cbn [fold_left dists_nested flat_map fst snd]; [rewrite app_nil_r; reflexivity|].
+  cbn [map fst] in Hnd. inversion Hnd as [|? ? Hni Hnd']; subst. fold (dists_nested r).
+  destruct d as [p|f kws].
+  - cbn [app]. apply IH; [exact Hnd' | intros td Hin; apply Hacc; right; exact Hin].
+  - rewrite kw_set_fresh by (apply (Hacc (t, Param f kws)); left; reflexivity).
+    rewrite IH; [rewrite <- app_assoc; reflexivity | exact Hnd' |].
+    intros td Hin. rewrite kw_get_app, (Hacc td (or_intror Hin)). cbn [kw_get].
+    rewrite path_eqb_neq; [reflexivity|]. intros [= Heq]. apply Hni. rewrite <- Heq. apply in_map, Hin.
+Qed.
+Lemma flat_items_dists_nested ds : flat_items_dict (dists_nested ds) = dists_items ds.
+Proof.
+  induction ds as [|[t d] r IH]; [reflexivity|]. cbn [dists_nested dists_items flat_map fst snd].
+  fold (dists_nested r). fold (dists_items r). rewrite flat_items_dict_app, IH. f_equal.
+  destruct d as [p|f kws]; [reflexivity|]. cbn [dist_local].
+  rewrite flat_items_dict_cons, flat_items_key_node, dist_kw_dict_leaves, flat_items_dict_leaves, app_nil_r. reflexivity.
+Qed.
+Lemma dists_items_keys_NoDup ds : NoDup (map fst ds) -> dist_keys_ok ds = true -> NoDup (map fst (dists_items ds)).
+Proof.
+  intros H Hk.
+  replace (map fst (dists_items ds))
+    with (flat_map snd (map (fun td => (fst td, map fst (pre [fst td] (dist_local (snd td))))) ds)).
+  - apply NoDup_chunks.
+    + rewrite map_map. exact H.
+    + intros c Hin. apply in_map_iff in Hin. destruct Hin as (td & <- & Hin). cbn [fst snd]. split.
+      * apply pre_keys_NoDup. unfold dist_keys_ok in Hk. rewrite forallb_forall in Hk. specialize (Hk td Hin).
+        destruct (snd td) as [p|f kws]; cbn [dist_local]; [constructor|].
+        rewrite map_map. cbn [fst]. apply nodupb_NoDup in Hk.
+        apply (NoDup_map_via _ fst); [intros x y [= Hxy]; exact Hxy | exact Hk].
+      * intros k Hk'. rewrite pre_keys in Hk'. apply in_map_iff in Hk'. destruct Hk' as (t & <- & _). reflexivity.
+  - clear. induction ds as [|td r IH]; [reflexivity|]. cbn [map flat_map snd dists_items]. rewrite map_app. f_equal. apply IH.
+Qed.
+Lemma dists_get_params_nested ds : NoDup (map fst ds) -> dists_get_params ds false = dists_nested ds.
+Proof. intros H. unfold dists_get_params, maybe_flatten. rewrite fold_kw_set_dists; [reflexivity | exact H | reflexivity]. Qed.
+Lemma dists_get_params_flat ds : NoDup (map fst ds) -> dist_keys_ok ds = true ->
+  dists_get_params ds true = leaves (dists_items ds).
+Proof.
+  intros H Hk. unfold dists_get_params, maybe_flatten. rewrite fold_kw_set_dists; [| exact H | reflexivity]. cbn [app].
+  rewrite flatten_spec; rewrite flat_items_dists_nested; [reflexivity | apply dists_items_keys_NoDup; assumption].
+Qed.
+
+Lemma map_flat_map' {A B C} (f : B -> C) (g : A -> list B) l : map f (flat_map g l) = flat_map (fun x => map f (g x)) l.
+Proof. induction l as [|a l IH]; [reflexivity|]. cbn [flat_map]. rewrite map_app, IH. reflexivity. Qed.
